@@ -81,13 +81,19 @@ fn period(rate: usize, lf0: f64) -> f64 {
 pub fn gen_f0_track(t: &mut Tape, rate: usize, nframes: usize, allow_unvoiced: bool) -> Vec<Option<f64>> {
     let lo = 20f64.ln();
     let hi = (rate as f64 / 2.0).min(20000.0).ln();
-    let mode = t.weighted(&[3, 3, 2, 2]);
-    let base = t.uniform(lo, hi);
+    let mode = t.weighted(&[3, 3, 2, 2, 1]);
+    let mut base = t.uniform(lo, hi);
+    if mode == 4 {
+        // a period of exactly k or k + 1/2 samples, held: the phase counter then returns to exactly
+        // zero again and again, also on the last sample of a frame
+        let k = t.urange(2, nframes.clamp(2, 60)) as f64 + if t.chance(0.3) { 0.5 } else { 0.0 };
+        base = (rate as f64 / k).ln().clamp(lo, hi);
+    }
     let mut cur = base;
     (0..nframes)
         .map(|_| {
             match mode {
-                0 => {}                                                     // constant
+                0 | 4 => {}                                                 // constant
                 1 => {
                     if t.chance(0.3) {
                         cur = t.uniform(lo, hi);                            // steps
@@ -96,7 +102,7 @@ pub fn gen_f0_track(t: &mut Tape, rate: usize, nframes: usize, allow_unvoiced: b
                 2 => cur = (cur + t.uniform(-0.15, 0.15)).clamp(lo, hi),     // slow glide
                 _ => cur = t.uniform(lo, hi),                               // every frame new
             }
-            if allow_unvoiced && t.chance(if mode == 0 { 0.1 } else { 0.25 }) {
+            if allow_unvoiced && t.chance(if mode == 0 { 0.1 } else if mode == 4 { 0.03 } else { 0.25 }) {
                 None
             } else if t.chance(0.04) {
                 // outside the limits: must behave like the limit
